@@ -106,6 +106,12 @@ func TestCheck(t *testing.T) {
 					cases = append(cases, faults.Case{Kind: "h2-flood", Proto: "h2", K: k, Val: n})
 				}
 			}
+			for _, k := range []int{0, 1, 10, 23, 24, 30} {
+				cases = append(cases, faults.Case{Kind: "stall-after-handshake", Proto: "h2", K: k}, faults.Case{Kind: "stall-after-handshake", Proto: "h1", K: k})
+			}
+			for k := 0; k < 3; k++ {
+				cases = append(cases, faults.Case{Kind: "h1-upgrade", Proto: "h1", K: k})
+			}
 			for k := range faults.H2RareNames {
 				cases = append(cases, faults.Case{Kind: "h2-rare", Proto: "h2", K: k})
 			}
